@@ -337,3 +337,112 @@ func TestC08Repeat(t *testing.T) {
 	}
 	run.Exhaustive()
 }
+
+// ---- order independence across one process --------------------------------
+
+// c08Battery: programs sensitive to hidden process-wide state: every builtin on
+// tie / boundary arguments, 35-digit rounding ties, regular expressions, dates,
+// string formatting, host calls.
+func c08Battery() []string {
+	var out []string
+	nums := []string{"2.5", "0.5", "(0-0.5)", "(0-2.5)", "3.5", "1.4", "7", "0.125", "1e20", "9999999999999999999999999999999997 / 2", "1 / 3", "12345678901234567890123456789012345 + 0", "0.1 + 0.2"}
+	for _, b := range []string{"abs", "ceil", "floor", "round", "roundBank", "sqrt", "exp", "ln", "log", "toInt", "toFloat", "toString", "finite"} {
+		for _, n := range nums {
+			out = append(out, "["+b+"("+n+")]")
+		}
+	}
+	for _, n := range nums {
+		out = append(out, "["+n+" / 3, "+n+" * 1.5, "+n+" % 2, "+n+" + 1e-30, max("+n+", 1), min("+n+", 1), "+n+" < 1, "+n+" === 2.5]")
+	}
+	strs := []string{"'Hello'", "''", "' x '", "'a.b'", "'héllo'", "s", "'12'", "'(ab)+'"}
+	for _, b := range []string{"len", "lower", "upper", "trim", "toString", "toFloat", "toInt"} {
+		for _, x := range strs {
+			out = append(out, b+"("+x+")")
+		}
+	}
+	for _, x := range strs {
+		out = append(out, "[startWith("+x+",'H'), endWith("+x+",'o'), contains("+x+",'l'), find("+x+",'l'), left("+x+",1), right("+x+",1), lpad("+x+",'0',8), rpad("+x+",'0',8), mid("+x+",1,3), replace("+x+",'l','L')]",
+			"regexp("+x+", '^[A-Za-z]+$')", "regexp('abab', "+x+")", "regexp("+x+", "+x+")", "join(["+x+", 'z'], "+x+")", "includes(["+x+"], 'Hello')")
+	}
+	for _, d := range []string{"date(2024,2,29)", "date(2023,14,35)", "t", "addDate(t,0,1,0)", "useTimezone(t,'UTC')", "useTimezone(t,'America/New_York')"} {
+		out = append(out, "[year("+d+"), month("+d+"), day("+d+"), hour("+d+"), minute("+d+"), weekDay("+d+"), millSecond("+d+"), timeFormat("+d+", '2006-01-02T15:04:05Z07:00')]")
+	}
+	out = append(out, "fnV(1,2,3)", "fnSV('k', 1, 'a', null)", "fnA([1,[2]])", "fnC(2.5)", "fn0() + 1", "[m.b.c, st.Name, mi.a, arr]", "$q = 2.5, [round($q), roundBank($q), $q]",
+		"typeof ctx", "[1,2,3] , 'x' + 2.50", "i64 + 1", "u64 % 10", "f64 * 3", "[1e400, 1e-400, 5e-324 + 0]", "this.s + this.i")
+	return out
+}
+
+type orderCase struct {
+	Order []int `json:"order"` // permutation of battery indices: evaluated twice in this order
+}
+
+func checkOrder08(c orderCase) string {
+	bat := c08Battery()
+	eval := func(f string) string {
+		p := obs.Parse([]byte(f))
+		if !p.OK() {
+			return "parse-error"
+		}
+		r := formula.NewRunner()
+		r.SetThis(c08Data(0))
+		v, e := outcomeKey(obs.Eval(r, context.Background(), p.Src.Expression))
+		return v + "|" + e
+	}
+	first := make(map[int]string, len(c.Order))
+	for _, i := range c.Order {
+		first[i] = eval(bat[i%len(bat)])
+	}
+	for _, i := range c.Order {
+		if again := eval(bat[i%len(bat)]); again != first[i] {
+			return fmt.Sprintf("%q gave %s the first time and %s after the other programs of the battery had been evaluated", bat[i%len(bat)], first[i], again)
+		}
+	}
+	return ""
+}
+
+func init() {
+	h.RegisterReplay("c08-order", func(raw json.RawMessage) string {
+		c, err := h.Decode[orderCase](raw)
+		if err != nil {
+			return "bad replay: " + err.Error()
+		}
+		return checkOrder08(c)
+	})
+}
+
+// TestC08AOrderIndependence runs first in its process (tests run in source
+// order of the sorted files and this name sorts first among TestC08*): a
+// battery of state-sensitive programs is evaluated in a random order drawn per
+// process, then again in the same order; a program that leaves hidden
+// process-wide state behind changes the second result of every program that
+// happened to run before it. With k shard processes a given (culprit, victim)
+// pair is ordered the right way in at least one of them with probability 1-2^-k.
+func TestC08AOrderIndependence(t *testing.T) {
+	bat := c08Battery()
+	run := h.Begin("C08", "order-independence", fmt.Sprintf("a battery of %d state-sensitive programs (every numeric builtin on ties and 35-digit rounding ties, string builtins, regular expressions, dates in several zones, host calls) evaluated in a random order drawn per shard process at process start, then again in the same order; oracle: both results of every program are identical (a program that leaves process-wide state behind changes the later result of the programs evaluated before it); every program counts as non-trivial; 3 permutations per process", len(bat)))
+	defer run.End(t)
+	h.RapidSetup(3, "c08order")
+	rapid.Check(t, func(rt *rapid.T) {
+		perm := rapid.Permutation(seqInts(len(bat))).Draw(rt, "order")
+		c := orderCase{Order: perm}
+		for _, i := range perm[:min(3, len(perm))] {
+			run.Sample("battery", bat[i])
+		}
+		msg := checkOrder08(c)
+		for _, i := range perm {
+			run.CountKey(bat[i], true, "")
+		}
+		if msg != "" {
+			run.Pending("order", "c08-order", c, msg)
+			rt.Fatalf("%s", msg)
+		}
+	})
+}
+
+func seqInts(n int) []int {
+	out := make([]int, n)
+	for i := range out {
+		out[i] = i
+	}
+	return out
+}
